@@ -710,10 +710,27 @@ type Binder struct {
 	Re []ReRole
 	// Unknown collects the canonical text of leaves that were not recognised.
 	Unknown map[string]bool
+	// subst: when evaluating the body of an inlined helper, canonical parameter names of the helper
+	// (p0, p1, recv) are replaced by the caller's canonical argument strings.
+	subst map[string]string
+	depth int
+	// for inlined helpers: the helper's parameter objects bound to the caller's argument expressions
+	parent      *Binder
+	parentStore Store
+	paramArgs   map[types.Object]ast.Expr
 }
 
 func (b *Binder) C(e ast.Expr, st Store) string {
-	s := b.Roles.Apply(b.Fn.CanonSt(e, st))
+	s := b.Fn.CanonSt(e, st)
+	if b.subst != nil {
+		s = paramRe.ReplaceAllStringFunc(s, func(m string) string {
+			if r, ok := b.subst[m]; ok {
+				return r
+			}
+			return m
+		})
+	}
+	s = b.Roles.Apply(s)
 	for _, r := range b.Re {
 		s = r.Re.ReplaceAllString(s, r.To)
 	}
@@ -730,6 +747,14 @@ func RE(pattern, to string) ReRole { return ReRole{regexp.MustCompile(pattern), 
 
 func (b *Binder) Leaf(e ast.Expr, st Store) Tri {
 	e = Unparen(e)
+	if b.parent != nil {
+		if id, ok := e.(*ast.Ident); ok {
+			if arg, isParam := b.paramArgs[b.Fn.Info().Uses[id]]; isParam {
+				// a boolean parameter of an inlined helper: evaluate the caller's argument in the caller's context
+				return EvalCond(b.parent.Fn.Info(), arg, b.parentStore, b.parent.Leaf)
+			}
+		}
+	}
 	if be, ok := e.(*ast.BinaryExpr); ok {
 		x, y := b.C(be.X, st), b.C(be.Y, st)
 		if a, ok := b.Cmp[x+"|"+y]; ok {
@@ -764,6 +789,36 @@ func (b *Binder) Leaf(e ast.Expr, st Store) Tri {
 	s := b.C(e, st)
 	if a, ok := b.Bool[s]; ok {
 		return FromBool(b.Row[a] == "T")
+	}
+	if id, ok := e.(*ast.Ident); ok && b.depth < 6 {
+		// a boolean local holding an expression (`localCAS := casVersion > 0`): evaluate the expression it holds
+		if obj := b.Fn.Info().Uses[id]; obj != nil {
+			var def ast.Expr
+			if se, ok := st[obj]; ok && se != nil {
+				def = se
+			} else if _, tracked := st[obj]; !tracked {
+				if d, ok := b.Fn.SingleDefExpr(obj); ok {
+					if sd, _ := b.Fn.SingleDef(obj); sd.kind == defExpr {
+						def = d
+					}
+				}
+			}
+			if def != nil && Unparen(def) != ast.Expr(id) {
+				if _, isIdent := Unparen(def).(*ast.Ident); !isIdent || boolLit(Unparen(def)) == U {
+					b.depth++
+					v := EvalCond(b.Fn.Info(), def, st, b.Leaf)
+					b.depth--
+					if v != U {
+						return v
+					}
+				}
+			}
+		}
+	}
+	if call, ok := e.(*ast.CallExpr); ok && b.depth < 3 {
+		if v := b.inlineCall(call, st); v != U {
+			return v
+		}
 	}
 	if b.Unknown != nil {
 		b.Unknown[s] = true
@@ -809,3 +864,99 @@ func InNode(outer ast.Node, n ast.Node) bool {
 
 // Before returns the same location (helper for readability when a table starts at a statement).
 func (l Loc) Before() Loc { return l }
+
+var paramRe = regexp.MustCompile(`\b(p\d+|recv)\b`)
+
+// inlineCall evaluates a call to a small boolean helper of the same package by abstractly executing the
+// helper's body with the caller's atoms (parameters substituted by the caller's canonical arguments).
+// This keeps decision tables insensitive to "extract the condition into a helper" refactorings.
+func (b *Binder) inlineCall(call *ast.CallExpr, st Store) Tri {
+	callee, _ := Callee(b.Fn.Info(), call).(*types.Func)
+	if callee == nil || callee.Pkg() != b.Fn.Pkg.Types {
+		return U
+	}
+	sig := callee.Type().(*types.Signature)
+	if sig.Results().Len() != 1 {
+		return U
+	}
+	if bt, ok := sig.Results().At(0).Type().Underlying().(*types.Basic); !ok || bt.Kind() != types.Bool {
+		return U
+	}
+	var target *Fn
+	for _, f := range Funcs(b.Fn.Pkg) {
+		if f.Obj == callee {
+			target = f
+		}
+	}
+	if target == nil || len(target.Body().List) > 12 {
+		return U
+	}
+	sub := &Binder{Fn: target, Roles: b.Roles, Cmp: b.Cmp, Eq: b.Eq, Enum: b.Enum, Bool: b.Bool, Row: b.Row, Re: b.Re, Unknown: nil, depth: b.depth + 1, subst: map[string]string{},
+		parent: b, parentStore: st, paramArgs: map[types.Object]ast.Expr{}}
+	for i, a := range call.Args {
+		if i < sig.Params().Len() {
+			// bind the parameter object (as seen inside the helper's body) to the argument
+			if target.Decl != nil && target.Decl.Type.Params != nil {
+				k := 0
+				for _, fl := range target.Decl.Type.Params.List {
+					for _, nm := range fl.Names {
+						if k == i {
+							if po := target.Info().Defs[nm]; po != nil {
+								sub.paramArgs[po] = a
+							}
+						}
+						k++
+					}
+				}
+			}
+		}
+		// the caller's canonical string without role renaming (roles are applied after substitution)
+		cs := b.Fn.CanonSt(a, st)
+		if b.subst != nil {
+			cs = paramRe.ReplaceAllStringFunc(cs, func(m string) string {
+				if r, ok := b.subst[m]; ok {
+					return r
+				}
+				return m
+			})
+		}
+		sub.subst[fmt.Sprintf("p%d", i)] = cs
+	}
+	if sel, ok := call.Fun.(*ast.SelectorExpr); ok && sig.Recv() != nil {
+		sub.subst["recv"] = b.Fn.CanonSt(sel.X, st)
+	}
+	g := target.Graph()
+	var rets []*ast.ReturnStmt
+	var locs []Loc
+	for _, blk := range g.Blocks {
+		if r := ReturnOf(blk); r != nil && len(r.Results) == 1 {
+			rets = append(rets, r)
+			locs = append(locs, g.Locate(r))
+		}
+	}
+	if len(rets) == 0 {
+		return U
+	}
+	ex := g.Exec(g.EntryLoc(), locs, sub.Leaf, ExecOpts{IgnorePanic: true})
+	if ex.Overflow {
+		return U
+	}
+	result := Tri(-1)
+	for i, r := range rets {
+		if !ex.May[i] {
+			continue
+		}
+		v := EvalCond(target.Info(), r.Results[0], nil, sub.Leaf)
+		if v == U {
+			return U
+		}
+		if result != Tri(-1) && result != v {
+			return U
+		}
+		result = v
+	}
+	if result == Tri(-1) {
+		return U
+	}
+	return result
+}
